@@ -48,6 +48,8 @@ func init() {
 			{ID: "C07-R23", Title: "emptying the module table keeps the host's modules", Floor: 1, Run: resetKeepsTheHostModules},
 			{ID: "C07-R24", Title: "VM locks are released by defer", Floor: 3, Run: vmLocksAreReleasedByDefer},
 			{ID: "C07-R25", Title: "loaded code entries are fresh", Floor: 2, Run: loadedCodeEntriesAreFresh},
+			{ID: "C07-R26", Title: "configuration is written by options only", Floor: 1, Run: configurationIsWrittenByOptionsOnly},
+			{ID: "C07-R27", Title: "tables filled while running are forgotten with the code", Floor: 2, Run: tablesFilledWhileRunningAreForgottenWithTheCode},
 		},
 	})
 }
@@ -407,7 +409,7 @@ func c07r5(c *core.Ctx) {
 				for _, in := range b.Instrs {
 					switch x := in.(type) {
 					case *ssa.MapUpdate:
-						if f := fieldOfMap(x.Map); f != "" && exempt[f] == "" && !hostSupplied(x.Value) {
+						if f := fieldOfMap(x.Map); f != "" && exempt[f] == "" && !hostSupplied(x.Value) && !removedByDefer(fn, x) {
 							publishes[fn] = f
 							changed = true
 						}
@@ -429,7 +431,7 @@ func c07r5(c *core.Ctx) {
 				field, via := "", ""
 				switch x := in.(type) {
 				case *ssa.MapUpdate:
-					if !hostSupplied(x.Value) {
+					if !hostSupplied(x.Value) && !removedByDefer(fn, x) {
 						field = fieldOfMap(x.Map)
 					}
 				case ssa.CallInstruction:
@@ -884,6 +886,33 @@ func isOwnReceiver(sf *ssa.Function, v ssa.Value) bool {
 		if al, ok := u.X.(*ssa.Alloc); ok && al.Referrers() != nil {
 			for _, r := range *al.Referrers() {
 				if st, ok := r.(*ssa.Store); ok && st.Addr == ssa.Value(al) && st.Val == recv {
+					return true
+				}
+			}
+		}
+	}
+	return false
+}
+
+// removedByDefer: the entry stored by mu is deleted again by a deferred
+// delete(m, key) on the same map and key that is registered right after it
+// (an in-progress marker, not a publication).
+func removedByDefer(fn *ssa.Function, mu *ssa.MapUpdate) bool {
+	for _, b := range fn.Blocks {
+		for _, in := range b.Instrs {
+			d, ok := in.(*ssa.Defer)
+			if !ok {
+				continue
+			}
+			bi, ok := d.Call.Value.(*ssa.Builtin)
+			if !ok || bi.Name() != "delete" || len(d.Call.Args) != 2 {
+				continue
+			}
+			if d.Call.Args[1] != mu.Key {
+				continue
+			}
+			if d.Call.Args[0] == mu.Map || core.SameStorage(d.Call.Args[0], mu.Map) || sameAccessPath(d.Call.Args[0], mu.Map, 0) {
+				if instrReaches(mu, in) {
 					return true
 				}
 			}
